@@ -63,8 +63,8 @@ PROPS = {
              "semilegalGen_eq_pseudo + pseudo_iff_semilegal (that set is exactly the rules' pseudo-legal moves, bijection concMove/absMove); "
              "semilegalGen_iff + whichClass_spec (capture / simple / simple-no-promote / simple-promote generators = the corresponding "
              "subsets, hence the disjoint unions); semilegalGen_nodup; generated_names_piece (every generated move is well-formed and "
-             "names the man on its source)",
-             ["Move::new accepts exactly the geometrically possible tuples (Spec.geomPossible): differential over all 532,480 tuples (a kernel decision of ~6 min; not yet a theorem)"],
+             "names the man on its source); move_new_iff_geom (Move::new accepts exactly the geometrically possible tuples, all 532,480)",
+             [],
              "Lean 4 theorems over all valid positions; differential (wfbulk over all tuples, semibulk, generators) ties the model to the code",
              "§6 C06"),
     "C07": P("proof", "calcOutcome_eq: on EVERY valid position Board::calc_outcome returns exactly Spec.outcome (checkmate won by the side not "
